@@ -1,10 +1,11 @@
 use crate::engine::core::Check;
 
+pub mod c02;
 pub mod c09;
 pub mod c13;
 
 pub fn all() -> Vec<&'static dyn Check> {
-    vec![&c09::C09, &c13::C13]
+    vec![&c02::C02, &c09::C09, &c13::C13]
 }
 
 pub fn find(id: &str) -> Option<&'static dyn Check> {
